@@ -1,8 +1,61 @@
-(** C18 — IF_DATA is interpreted as the applicable A2ML definition says. *)
+(** C18 — IF_DATA is interpreted as the applicable A2ML definition says.
+    Statements about the model of ifdata.rs inside the parser model (Gram/Parser.v).  Proved: how the validity flag is
+    decided (sound in both directions), that an interpretation must account for the whole content, and that the scalar
+    readers return exactly the value - and for integers the notation - that the writer's text carries.  The
+    composition over arbitrary nested definitions (structs, sequences, tagged members) is evaluated against the
+    implementation and against an independent reference interpreter, not proved: C18 is a partial proof. *)
 From Coq Require Import Ascii String List Bool NArith ZArith.
-From A2L Require Import Text.Escape Lex.Tokenizer Gram.Spec A2ml.Types Gram.PState Gram.Parser Proofs.IfdataProofs.
+From A2L Require Import Text.Escape Text.IntText Lex.Tokenizer Gram.Spec A2ml.Types Gram.PState Gram.Parser Proofs.IfdataProofs.
 Import ListNotations.
 
-Theorem C18_interpreted_content_is_a_block : forall data inc line, exists items, make_block data inc line = GBlock inc line items.
-Proof. exact make_block_is_block. Qed.
-Print Assumptions C18_interpreted_content_is_a_block.
+(* valid = true only when a specification (built-in first, then the A2ML block of the file) accepted the content, and the
+   items are the interpretation by that specification *)
+Theorem C18_valid_means_a_definition_accepted : forall specs fuel c s og s',
+  parse_ifdata specs fuel c s = (ROk (og, true), s') ->
+  exists g sp s0, og = Some g /\ In sp specs /\ parse_ifdata_from_spec sp c s0 = (ROk (Some g), s').
+Proof. exact parse_ifdata_valid_sound. Qed.
+Print Assumptions C18_valid_means_a_definition_accepted.
+
+(* valid = false with data means: no specification accepted, and the data is what the uninterpreted fallback kept *)
+Theorem C18_invalid_means_uninterpreted_fallback : forall specs fuel c s g s',
+  parse_ifdata specs fuel c s = (ROk (Some g, false), s') ->
+  exists s0 s1, first_spec specs c s0 = (ROk None, s1) /\ unknown_ifdata_start fuel c s1 = (ROk g, s').
+Proof. exact parse_ifdata_invalid_is_fallback. Qed.
+Print Assumptions C18_invalid_means_uninterpreted_fallback.
+
+(* the specifications are tried in order: the built-in one wins over the one in the file *)
+Theorem C18_specifications_in_order : forall specs c s g s',
+  first_spec specs c s = (ROk (Some g), s') ->
+  exists sp s0, In sp specs /\ parse_ifdata_from_spec sp c s0 = (ROk (Some g), s').
+Proof. exact first_spec_some. Qed.
+Print Assumptions C18_specifications_in_order.
+
+(* an interpretation is accepted only if it accounts for the whole content of the block *)
+Theorem C18_interpretation_consumes_everything : forall sp c s g s',
+  parse_ifdata_from_spec sp c s = (ROk (Some g), s') ->
+  exists t, peek_token s' = (ROk (Some t), s') /\ tk_type t = TEnd.
+Proof. exact from_spec_consumes_everything. Qed.
+Print Assumptions C18_interpretation_consumes_everything.
+Theorem C18_interpretation_is_a_block : forall sp c s g s',
+  parse_ifdata_from_spec sp c s = (ROk (Some g), s') -> exists inc items, g = GBlock inc (c_line c) items.
+Proof. exact from_spec_yields_block. Qed.
+Print Assumptions C18_interpretation_is_a_block.
+
+(* integers: value and notation survive, for char/int/long/int64 and their unsigned forms *)
+Theorem C18_integer_value_and_notation_survive : forall variant t c tok s v hex,
+  match ps_after s with x :: _ => x = tok | [] => False end ->
+  tk_type tok = TNumber -> tk_text tok = add_integer_text t v hex -> in_range t v = true ->
+  forall g s', int_item variant t c s = (ROk g, s') -> exists off, g = GInt variant off v hex.
+Proof. exact int_item_reads_written_value. Qed.
+Print Assumptions C18_integer_value_and_notation_survive.
+
+(* enum items: only members of the enumeration are accepted *)
+Theorem C18_enum_accepts_only_members : forall items c s g s',
+  item_step (fun _ _ => ret GNone) (TEnum items) c s = (ROk g, s') -> exists off e, g = GEnumItem off e /\ enum_has items e = true.
+Proof. exact enum_item_accepts_only_members. Qed.
+Print Assumptions C18_enum_accepts_only_members.
+
+(* strings: every byte sequence survives escaping by the writer and unescaping by the reader *)
+Theorem C18_string_value_survives : forall str, unescape (strip_quotes (dq :: escape str ++ [dq])) = str.
+Proof. exact string_value_survives. Qed.
+Print Assumptions C18_string_value_survives.
